@@ -6,6 +6,8 @@ mod util;
 mod s_deblock;
 mod s_yuv;
 mod s_decode;
+mod s_reader;
+mod s_kernels;
 
 fn main() {
     // Panics are expected outcomes here; keep stderr quiet.
@@ -29,6 +31,10 @@ fn main() {
         "yuv-img" => s_yuv::img(&rest[0]),
         "decode" => s_decode::decode(&rest[0], &rest[1]),
         "header" => s_decode::header(&rest[0]),
+        "reader" => s_reader::reader(&rest[0]),
+        "kernel-sweep" => s_kernels::sweep(&rest[0]),
+        "candidates" => s_kernels::candidates(&rest[0]),
+        "idct" => s_kernels::idct(&rest[0]),
         "threads" => s_decode::threads(&rest[0], rest[1].parse().unwrap(), rest[2].parse().unwrap(), &rest[3]),
         other => {
             eprintln!("unknown suite {other}");
